@@ -410,7 +410,7 @@ inline constexpr void Conversion<Unit::Area, Unit::Area::SquareMicroinch>::ToSta
 }
 
 template <typename NumericType>
-inline const std::map<Unit::Area, std::function<void(NumericType* const, const std::size_t size)>>
+inline const ConversionTable<Unit::Area, NumericType>
     MapOfConversionsFromStandard<Unit::Area, NumericType>{
       {Unit::Area::SquareMetre,
        Conversions<Unit::Area,                                 Unit::Area::SquareMetre>::FromStandard<NumericType>       },
@@ -444,7 +444,7 @@ inline const std::map<Unit::Area, std::function<void(NumericType* const, const s
 };
 
 template <typename NumericType>
-inline const std::map<Unit::Area, std::function<void(NumericType* values, const std::size_t size)>>
+inline const ConversionTable<Unit::Area, NumericType>
     MapOfConversionsToStandard<Unit::Area, NumericType>{
       {Unit::Area::SquareMetre,
        Conversions<Unit::Area,                                 Unit::Area::SquareMetre>::ToStandard<NumericType>       },
